@@ -511,7 +511,7 @@ impl TreeSpec {
     /// write handles kept open across other calls are generated for the properties whose
     /// quantifier has no handle exclusion
     pub fn stale_handles(&self) -> bool {
-        matches!(self.prop.as_str(), "C03" | "C05" | "C13")
+        matches!(self.prop.as_str(), "C03" | "C05" | "C13" | "C19")
     }
 }
 
@@ -671,8 +671,17 @@ pub fn gen_op(rng: &mut Rng, ts: &TreeSpec, snap: &BTreeMap<String, Obs>, cfg: &
                 // transfer source of the wrong type is outside the domain
                 let dir_op = name.ends_with("_dir");
                 if (dir_op && t != 'D') || (!dir_op && t != 'F') {
-                    if !(ts.wrong_type_calls && t == 'A') && t != 'A' {
+                    // C03 / C13 quantify over the unrestricted domain ("every call on every path, including
+                    // file calls on directories"): there a transfer whose source exists with the WRONG type is
+                    // generated too (move_file / copy_file of a directory, copy_dir / move_dir of a file);
+                    // the other properties leave such transfers unspecified
+                    let unrestricted = matches!(ts.prop.as_str(), "C03" | "C13") && t != 'A' && rng.chance(1, 2);
+                    if !unrestricted && !(ts.wrong_type_calls && t == 'A') && t != 'A' {
                         continue;
+                    }
+                    if unrestricted {
+                        op.dest = Some(d);
+                        return op;
                     }
                     // missing source: outside C11's statement too (copy_dir creates the
                     // destination first); keep it rare and only for the file transfers
@@ -772,6 +781,16 @@ pub fn run_impl(world: &mut RWorld, cfg: Cfg, ts: &TreeSpec, rng: &mut Rng, n_op
                     // the other type, put something below it
                     let hp = handle_path.clone();
                     let child = universe().iter().find(|q| parent_of(q) == hp).map(|q| q.to_string());
+                    if ts.time_ops && rng.chance(1, 2) {
+                        // C19: a timestamp set on the file while the handle is open must survive the
+                        // handle's later flush/drop (for the creation and access time; the publication
+                        // itself stamps the modification time)
+                        let name = *rng.pick(&["set_ctime", "set_mtime", "set_atime"][..]);
+                        let t = *rng.pick(&[0i128, 1_000_000_000, 1_234_567_890_123_456_789, -86_400_500_000_000][..]);
+                        ops.push(Op { name, path: hp.clone(), bytes: None, dest: None, time: Some(t) });
+                        let op = ops.pop().unwrap();
+                        op
+                    } else {
                     match rng.below(6) {
                         0 | 1 => Op { name: "remove_file", path: hp, bytes: None, dest: None, time: None },
                         2 | 3 => Op { name: "create_dir", path: hp, bytes: None, dest: None, time: None },
@@ -784,6 +803,7 @@ pub fn run_impl(world: &mut RWorld, cfg: Cfg, ts: &TreeSpec, rng: &mut Rng, n_op
                             let par = parent_of(&hp);
                             Op { name: "remove_dir", path: if par.is_empty() { hp } else { par }, bytes: None, dest: None, time: None }
                         }
+                    }
                     }
                 } else if handle_open && rng.chance(1, 4) {
                     Op { name: "hwrite", path: String::new(), bytes: Some(random_bytes(rng)), dest: None, time: None }
@@ -806,17 +826,21 @@ pub fn run_impl(world: &mut RWorld, cfg: Cfg, ts: &TreeSpec, rng: &mut Rng, n_op
         };
         let step = i + 1;
         // timestamps before/after: setters, and (C19) append, which must preserve the creation time
-        let is_setter = op.name.starts_with("set_") || (ts.preds.contains(&"time-roundtrip") && op.name == "append");
+        // … and (C19) the publication of a write handle that was kept open across other calls (time
+        // setters among them): flush/drop must leave the creation time the entry has NOW
+        let handle_pub = ts.preds.contains(&"time-roundtrip") && matches!(op.name, "hdrop" | "hwrite") && !handle_path.is_empty();
+        let is_setter = op.name.starts_with("set_") || (ts.preds.contains(&"time-roundtrip") && op.name == "append") || handle_pub;
+        let tpath = if handle_pub { handle_path.clone() } else { op.path.clone() };
         if is_setter {
             // metadata is read before any content (content reads perturb the access time)
-            push(world, &mut lines, &mut impl_out, Line { who: Who::Both, text: format!("op {} metadata_t {}", cfg.target, enc_str(&op.path)), step, role: "tbefore" });
+            push(world, &mut lines, &mut impl_out, Line { who: Who::Both, text: format!("op {} metadata_t {}", cfg.target, enc_str(&tpath)), step, role: "tbefore" });
         }
         let opres = push(world, &mut lines, &mut impl_out, Line { who: Who::Both, text: op.line(cfg.target), step, role: "op" });
         if matches!(op.name, "hcreate" | "happend") && opres.as_deref() != Some("ok") {
             handle_open = false;
         }
         if is_setter {
-            push(world, &mut lines, &mut impl_out, Line { who: Who::Both, text: format!("op {} metadata_t {}", cfg.target, enc_str(&op.path)), step, role: "tafter" });
+            push(world, &mut lines, &mut impl_out, Line { who: Who::Both, text: format!("op {} metadata_t {}", cfg.target, enc_str(&tpath)), step, role: "tafter" });
         }
         push(world, &mut lines, &mut impl_out, Line { who: Who::Model, text: op.line(cfg.spec), step, role: "specop" });
         let s = push(world, &mut lines, &mut impl_out, Line { who: Who::Both, text: format!("{} {} {}", snapc, cfg.target, uni), step, role: "snap" }).unwrap();
@@ -1132,6 +1156,19 @@ pub fn judge(run: &Run, model_out: &[String], ts: &TreeSpec, rep: &mut Report) {
                 }
                 if before.starts_with("ok F") && get(&before, "c=") != get(&after, "c=") {
                     rep.fail(mk("prop", format!("{}:append:creation-time-changed", kind_class(&run.cfg_name)), format!("appending changed the creation time: {} -> {}", before, after), &after, &before));
+                }
+            }
+        }
+        if step > 0 && ts.preds.contains(&"time-roundtrip") && matches!(opname, "hdrop" | "hwrite") && !run.cfg_name.contains("phys") {
+            if let (Some(bi), Some(ai)) = (by.get(&(step, "tbefore")), by.get(&(step, "tafter"))) {
+                let before = run.impl_out[*bi].clone().unwrap();
+                let after = run.impl_out[*ai].clone().unwrap();
+                let get = |s: &str, f: &str| s.split(' ').find(|t| t.starts_with(f)).map(|t| t[2..].to_string());
+                if before != model_out[*bi] || after != model_out[*ai] {
+                    rep.fail(mk("corr", format!("{}:{}:timestamps", kind_class(&run.cfg_name), opname), format!("metadata with timestamps around the handle's publication: implementation {} -> {} / model {} -> {}", before, after, model_out[*bi], model_out[*ai]), &after, &model_out[*ai]));
+                }
+                if before.starts_with("ok F") && after.starts_with("ok F") && get(&before, "c=") != get(&after, "c=") {
+                    rep.fail(mk("prop", format!("{}:{}:creation-time-changed", kind_class(&run.cfg_name), opname), format!("the write handle's {} changed the creation time of its file: {} -> {}", if opname == "hdrop" { "drop" } else { "write" }, before, after), &after, &before));
                 }
             }
         }
